@@ -362,6 +362,7 @@ def plan_C03(ctx):
     run_family(ctx, "merge_chain", n_of(ctx, 20, 300), perfile=10, seed_off=2)
     run_family(ctx, "card_boundary", n_of(ctx, 6, 24), perfile=1, seed_off=4)      # live cardinality on a chunk-size step, deleted 1-hit inputs
     run_family(ctx, "dv_walk", n_of(ctx, 8, 100), perfile=2, seed_off=5)           # a >1024-document input with doc-value chunk gaps as the SECOND input
+    run_family(ctx, "many_fields", n_of(ctx, 6, 60), perfile=2, seed_off=6)        # locations naming other fields whose ids sit on both sides of 128
     canary(ctx)
 
 
@@ -381,6 +382,8 @@ def plan_C04(ctx):
     run_family(ctx, "card_boundary", n_of(ctx, 6, 24), perfile=1, seed_off=3)
     run_family(ctx, "big_stored", n_of(ctx, 2, 12), perfile=1)                      # megabytes of stored values inside one 128-document block
     run_family(ctx, "fault_load", n_of(ctx, 10, 200), perfile=10, seed_off=2)       # a Load that met a transient read failure and still succeeded
+    run_family(ctx, "many_fields", n_of(ctx, 6, 60), perfile=2, seed_off=7)         # merged files whose location prefixes depend on field ids 127/128
+    run_family(ctx, "big_dict_merge", n_of(ctx, 3, 30), perfile=1, seed_off=1)
     canary(ctx)
 
 
@@ -397,6 +400,7 @@ def plan_C06(ctx):
     run_family(ctx, "fault_merge", n_of(ctx, 32, 128), perfile=16, seed_off=2, env_extra={"VERIF_INLINE": "1"})   # overlapping visits after an abandoned merge (same goroutine: same pool)
     run_family(ctx, "copy_boundary", n_of(ctx, 6, 60), perfile=2)                 # output blocks ending inside a copied source block
     run_family(ctx, "huge", n_of(ctx, 2, 8), perfile=1, seed_off=4)
+    run_family(ctx, "block_drop", n_of(ctx, 16, 112), perfile=4)                 # deletions on the first/last slot of a stored block, all at once vs stepwise
     canary(ctx)
 
 
@@ -409,6 +413,7 @@ def plan_C07(ctx):
     run_family(ctx, "dv_walk", n_of(ctx, 24, 300), perfile=2)
     run_family(ctx, "big_dv", n_of(ctx, 2, 8), perfile=1)                           # one doc-value chunk beyond 16 MiB
     run_family(ctx, "fault_load", n_of(ctx, 20, 300), perfile=10)                   # every read of Load as a transient failure point
+    run_family(ctx, "huge", n_of(ctx, 2, 8), perfile=1, seed_off=3)                 # doc values of documents beyond 16 384 / 65 536
     run_family(ctx, "dv_merge_order", n_of(ctx, 8, 80), perfile=2, seed_off=1)
     run_family(ctx, "fault_dv_partial", n_of(ctx, 256, 1024), perfile=64, seed_off=1)   # readers of several fields out of step after a failed load
     require_cov(ctx, "tag:dv_chunk_gap")
@@ -424,6 +429,7 @@ def plan_C08(ctx):
     run_family(ctx, "dict_interleave", n_of(ctx, 120, 2500), perfile=n_of(ctx, 20, 40))
     run_family(ctx, "merge_obs", n_of(ctx, 100, 1500), perfile=20, seed_off=6)
     canary(ctx)
+    run_family(ctx, "build_big", n_of(ctx, 7, 84), perfile=1, seed_off=4)         # dense terms last in their dictionary: length prefixes of run-optimised bitmaps
 
 
 def race_pass(ctx, family, n, prop):
@@ -457,6 +463,7 @@ def plan_C09(ctx):
     e2_fst_cache(ctx, n_of(ctx, 24, 300))
     e1_stored_read(ctx)
     e2_stored_read(ctx, n_of(ctx, 48, 600))
+    run_family(ctx, "match", n_of(ctx, 40, 400), perfile=20, seed_off=6)          # results of DocsMatchingTerms are the caller's to edit
     require_cov(ctx, "tag:nested", "tag:twoblocks")
     run_family(ctx, "conc_sched", n_of(ctx, 60, 1500), perfile=n_of(ctx, 10, 30))
     run_family(ctx, "conc_free", n_of(ctx, 40, 800), perfile=n_of(ctx, 8, 20))
@@ -486,6 +493,7 @@ def plan_C11(ctx):
     run_family(ctx, "faults_big", n_of(ctx, 2, 16), perfile=1)                # file-backed segment of several 64 KiB pieces
     run_family(ctx, "big_stored", n_of(ctx, 2, 12), perfile=1, seed_off=2)    # memory-backed segments of more than a megabyte
     run_family(ctx, "twin_persist", n_of(ctx, 40, 600), perfile=20)          # same layout, different content, persisted back to back
+    run_family(ctx, "big_dict_merge", n_of(ctx, 3, 30), perfile=1)            # multi-kilobyte single writes after many small ones
     run_family(ctx, "roundtrip", n_of(ctx, 150, 3000), perfile=n_of(ctx, 10, 30), seed_off=7)
     run_family(ctx, "merge_obs", n_of(ctx, 150, 3000), perfile=20, seed_off=8)
     canary(ctx)
@@ -561,6 +569,7 @@ def plan_C17(ctx):
     run_family(ctx, "card_boundary", n_of(ctx, 6, 24), perfile=1, seed_off=2)
     run_family(ctx, "copy_boundary", n_of(ctx, 6, 60), perfile=2, seed_off=1)
     run_family(ctx, "merge_chain", n_of(ctx, 20, 300), perfile=10, seed_off=5)
+    run_family(ctx, "block_drop", n_of(ctx, 16, 112), perfile=4)                 # deletions on the first/last slot of a stored block, all at once vs stepwise
     canary(ctx)
 
 
